@@ -1,18 +1,15 @@
-"""C05 - bound names and data-dependent predicates."""
-import random
-
-import gen
+"""C05 - bound names and data-dependent predicates see the values parsed earlier."""
 import pegcheck
 
 
 def run(chk):
-    chk.rule = ('cases = (grammar, input); grammars enumerated by TLC (MC_C05: element kinds x separator kinds x all '
-                'bound forms 0..3 x bounds read from the input via let / class let-field / template parameter x all '
-                'accepted Sep option vectors x enclosing contexts) plus seeded random core grammars rich in '
-                'repetitions and Sep judged by the same specification; non-trivial = well-formed per the '
-                'specification; distinct by (description, input)')
-    chk.assumptions += ['PegSem!EvalList / EvalSep are the documented meaning of e{m,n} and Sep(...); LawBounds and '
-                        'LawSepShape are model-checked on every member']
+    chk.rule = ('cases = (grammar, input); TLC (MC_C05) enumerates binding form (let, class field, class let-field, '
+                'rule parameter, class parameter, class with requires) x use form (where ==, where !=, bare value, '
+                'list display, |> and <| closures, repetition count, where len>, positional and keyword template '
+                'pass-through) x context (bare; earlier alternative binds the same name and is abandoned; rebinding '
+                'per iteration; recursion; shadowing; siblings) on all inputs up to the bound; non-trivial = matches '
+                'or fails beyond the offset; distinct by (description, input)')
+    chk.assumptions += ['environments of PegSem with the closed inline-Python repertoire PyEval/PyCall',
+                        'LawRebindExercised guards against a family in which the abandon-and-rebind path is never taken']
     cases = pegcheck.collect(chk, 'MC_C05', 'MC_C05_' + chk.tier, timeout_s=3000)
-    chk.notes['tlc_enumerated_grammars'] = len(cases)
-    pegcheck.replay(chk, cases, sample_every=20011)
+    pegcheck.replay(chk, cases, sample_every=9973)
